@@ -43,6 +43,7 @@ NON_MPF_TUPLES = {
     ('mpmath/libmp/libmpf.py', 'to_pickable#2'): 'pickle form; paired with from_pickable (C40)',
 }
 NORMALISERS = {'_normalize', '_normalize1'}
+SPECIAL_GUARDS = ('not man and exp', '(not man) and exp', 'exp and (not man)', 'exp and not man')
 
 
 def run(run, ix, tier):
@@ -426,6 +427,11 @@ def check_entries(run, ix):
             stores = [y for y in ast.walk(x) if isinstance(y, ast.Assign) and
                       norm(y.targets[0]).endswith('._mpf_')]
             want = 'from_man_exp' if '2' in norm(x.test) else 'normalize'
+            # the raw tuple itself may be stored only for inf/nan (zero mantissa, non-zero exponent)
+            special = [y for y in stores if isinstance(y.value, ast.Name) and
+                       isinstance(getattr(y, '_parent', None), ast.If) and y in y._parent.body and
+                       norm(y._parent.test) in SPECIAL_GUARDS]
+            stores = [y for y in stores if y not in special]
             if len(stores) == 1 and isinstance(stores[0].value, ast.Call) and \
                     norm(stores[0].value.func) == want:
                 run.ok('E-R6', 'mpf(%s-tuple) enters through %s' % (norm(x.test)[-1], want))
@@ -435,7 +441,40 @@ def check_entries(run, ix):
                                  'a user-supplied raw tuple (possibly even mantissa / wrong bit count) '
                                  'is stored via `%s`; only the general normaliser %s() accepts '
                                  'non-canonical input' % (got, want), line=x.lineno))
-    # same-type branch: normalize of unpacked fields is fine, specials returned as is
+    # normalize() answers fzero for EVERY zero mantissa, so inf/nan (zero mantissa, non-zero exponent)
+    # must be diverted before it: every normalize call of the constructor on the unpacked fields of a
+    # whole value is on the false side of a special-value guard
+    n = 0
+    for c in _walk_own(f.node):
+        if not (isinstance(c, ast.Call) and norm(c.func) == 'normalize'):
+            continue
+        n += 1
+        st = c
+        while not isinstance(st, ast.stmt):
+            st = st._parent
+        guarded = False
+        cur = st
+        while cur is not f.node:
+            par = cur._parent
+            if isinstance(par, ast.If) and norm(par.test) in SPECIAL_GUARDS and cur in par.orelse:
+                guarded = True
+            body = getattr(par, 'body', None)
+            for lst in (getattr(par, 'body', []), getattr(par, 'orelse', [])):
+                if isinstance(lst, list) and cur in lst:
+                    for prev in lst[:lst.index(cur)]:
+                        if isinstance(prev, ast.If) and norm(prev.test) in SPECIAL_GUARDS and prev.body and \
+                                isinstance(prev.body[-1], ast.Return):
+                            guarded = True
+            cur = par
+        if guarded:
+            run.ok('E-R6', 'normalize at line %d runs only for values that are not inf/nan' % c.lineno)
+        else:
+            run.fail(Finding('E-R6', CTXPY, f.qualname, norm(st),
+                             'the fields of a whole value reach normalize() without a special-value guard: '
+                             'normalize returns zero for every zero mantissa, so inf and nan become 0',
+                             line=c.lineno))
+    if n < 1:
+        raise AnalysisError('constructor: normalize calls not found')
     # unpickling
     g = ix.func(LIBMPF, 'from_pickable')
     rets = [x for x in _walk_own(g.node) if isinstance(x, ast.Return)]
